@@ -44,3 +44,9 @@ reg("C07", level="model_checking", overlay="plain",
     assumptions=["capacity behaviour is explored exhaustively on a cap-3 instance (constant re-valued in the compiled copy, nothing else changed) and bound to the shipped 2^20 by one full-size run per arrival order",
                  "timestamps stay inside one NTP era (ordering across the 2036 boundary is a recorded limitation)",
                  "the race pass is a free-running execution, not an enumeration"])
+
+reg("C04", level="exploration", overlay="plain",
+    technique="exhaustive enumeration of the sub-second range and a boundary-dense seconds grid, exact oracle on time.Time",
+    level_text="Time64FromTime/TimeFromTime64 are evaluated on all 10^9 nanosecond values, on all (thorough) 2^32 fractions and on a seconds grid that contains every era boundary up to 2308 with all 2^16 neighbouring offsets and both window edges; the seconds and fraction computations are independent in the code, and the cross product is taken on the boundary sets. Exhaustive over that space.",
+    budget={"quick": 120, "thorough": 1500}, workers={"quick": 16, "thorough": 16},
+    assumptions=["seconds offsets are boundary-dense, not all 2^32 per reference", "reference times up to 2^33 s after 1900"])
